@@ -1,5 +1,5 @@
 (** C05 — any alteration of the encrypted stream is detected. *)
-From HC Require Import Base.HBytes Base.ChaChaPoly Base.ChaChaPolyProofs Gen.Extracted Model.Framing Proofs.FramingProofs.
+From HC Require Import Base.HBytes Base.ChaChaPoly Base.ChaChaPolyProofs Gen.Extracted Model.Framing Model.ConnRead Proofs.FramingProofs Proofs.ConnReadProofs Proofs.ConnAdvProofs.
 
 (** For ANY AEAD with open(seal p) = p, any key, any start counter, any plaintext chunks [ps]
     the peer sealed, and ANY byte string [r] arriving instead of the peer's stream (bit flips,
@@ -59,3 +59,44 @@ Theorem C05_key_separation :
   Extracted.srv_dec_info = Extracted.cli_enc_info /\ Extracted.srv_enc_info <> Extracted.srv_dec_info.
 Proof. exact extracted_labels_interop. Qed.
 Print Assumptions C05_key_separation.
+
+
+(** The same at the connection (hap.Connection.Read over readFrame, where frames that follow the
+    altered one may already be buffered): for EVERY list of chunks the peer sealed, EVERY schedule
+    of socket events — any bytes at all, in any segmentation, with timeouts and end of stream —
+    and EVERY sequence of caller reads, however long the caller goes on reading after an error,
+    what Read has delivered together with what it holds decrypted is the concatenation of the
+    first j sent chunks for some j, or a forgery event occurred. *)
+Theorem C05_connection_prefix_or_forgery :
+  forall seal open,
+  (forall k n a p, open k n a (fst (seal k n a p)) (snd (seal k n a p)) = Some p) ->
+  forall key ctr ps bsizes evs, Forall (fun b => (0 < b)%nat) bsizes ->
+    let sent := sealed_frames seal key ctr ps in
+    let '(rs, st', _) := run_reads true open key (init_conn ctr) bsizes evs in
+    forgery (fst (recv open key ctr (datas evs))) sent \/
+    exists j, (j <= length ps)%nat /\ concat (map out_of rs) ++ plain_of st' = concat (firstn j ps).
+Proof. exact conn_prefix_or_forgery. Qed.
+Print Assumptions C05_connection_prefix_or_forgery.
+
+Theorem C05_connection_chacha20poly1305 :
+  forall key ctr ps bsizes evs, Forall (fun b => (0 < b)%nat) bsizes ->
+    let sent := sealed_frames cc_seal key ctr ps in
+    let '(rs, st', _) := run_reads true cc_open key (init_conn ctr) bsizes evs in
+    forgery (fst (recv cc_open key ctr (datas evs))) sent \/
+    exists j, (j <= length ps)%nat /\ concat (map out_of rs) ++ plain_of st' = concat (firstn j ps).
+Proof. exact cc_conn_prefix_or_forgery. Qed.
+Print Assumptions C05_connection_chacha20poly1305.
+
+(** The read path before commit 1e7d383 violated it: with frame 1 of three frames corrupted and all
+    three in one segment, a caller that kept reading was handed frame 2 (and frame 0, then
+    (0, nil)); the repaired path answers frame 0, an error, and errors from then on. *)
+Theorem C05_refuted_pinned_connection :
+  let key := repeat 3 32 in
+  let w := wire cc_seal key 0 [[1; 2; 3]; [4; 5]; [6; 7; 8; 9]] in
+  let fr0 := firstn 21 w in let fr1 := firstn 20 (skipn 21 w) in let fr2 := skipn 41 w in
+  let bad := fr0 ++ (2 :: 0 :: map (fun x => N.lxor x 1) (skipn 2 fr1)) ++ fr2 in
+  fst (fst (run_reads false cc_open key (init_conn 0) [16; 16; 16; 16]%nat [SockData bad])) =
+    [RData [1; 2; 3]; RZero; RData [6; 7; 8; 9]; RZero] /\
+  fst (fst (run_reads true cc_open key (init_conn 0) [16; 16; 16; 16]%nat [SockData bad])) =
+    [RData [1; 2; 3]; RErr 2; RErr 3; RErr 3].
+Proof. exact pinned_conn_delivers_after_failure. Qed.
